@@ -265,6 +265,9 @@ PROFILES = {
     'small_history_flat': dict(nb=[1], own_bus_only=True, max_history=[1, 2, 3, 5], ncallers=[1, 2], caller_len=[3, 4, 5, 6], p_caller_await=0.5,
                                p_dawait=0.0, p_dispatch=0.0, p_gap=0.0, max_depth=[1]),
     'timeouts': dict(nb=[1, 2], short_timeouts=(0.5, [0.05, 0.1, 0.15, 0.5, 1.0, 2.0]), long_p=0.3, p_pause=0.4, p_dawait=0.35, max_depth=[1, 2, 2]),
+    # handlers that hog the CPU past their own deadline: the cancellation lands at their next suspension point, wherever that is
+    'timeouts_burn': dict(nb=[1, 2], short_timeouts=(0.6, [0.05, 0.1, 0.15]), p_pause=0.2, p_burn=0.3, p_dawait=0.4, p_dispatch=0.2, max_depth=[1, 2, 2],
+                          ncallers=[1, 2, 3], caller_len=[2, 3, 4], p_caller_await=0.4),
     'timeouts_clean': dict(nb=[1], own_bus_only=True, ncallers=[1], p_caller_await=1.0, short_timeouts=(0.5, [0.05, 0.1, 0.5, 1.0]), long_p=0.3,
                            p_pause=0.5, p_dispatch=0.0, p_dawait=0.0, max_depth=[1]),
     'idle_race': dict(nb=[1, 2], caller_idle_p=0.6, ncallers=[2, 3], p_caller_await=0.3, p_raise=0.05),
